@@ -148,13 +148,15 @@ def c14(cx):
              'comparisons, and plain-integer parameters / fields whose name declares the unit never mix the two), '
              'R-BOM-USERS (only Lexer::new looks at the byte-order mark) and LEA R-BOM-ORDER on the paths of '
              'Lexer::new (the first char offset counts exactly the skipped mark); R-BULK-OFFSETS (R-BULK-AGREE for the start / '
-             'stop fields: the resolved view Python consumes reports the same character offsets as the accessors).')
+             'stop fields: the resolved view Python consumes reports the same character offsets as the accessors); LEA '
+             'R-ADVANCE-SHORT (an advance_by call that can meet the end of the input relies on an early exit of '
+             'Cursor::advance_by that counts exactly the characters consumed).')
 def c03(cx):
     rules_bulk.run(cx, fields=("start", "stop"), rule_name="R-BULK-OFFSETS")
     rules_struct.r_cursor_count(cx, ["dev-none-stable", "rel-none-stable"])
     rules_struct.r_units(cx, ["dev-none-stable", "dev-msep-stable"])
     rules_struct.r_bom_const(cx, cx.facts("dev-none-stable"))
-    lea_glue.apply(cx, ["R-BOM-ORDER"])
+    lea_glue.apply(cx, ["R-BOM-ORDER", "R-ADVANCE-SHORT"])
 
 
 @prop("C02", 'structural rules R-RESTORE (rollback restores cursor / stack length and truncates tokens, lines and '
@@ -164,14 +166,14 @@ def c03(cx):
              'emitted token are snapshots of one and the same cursor position), R-EMIT-ORDER (token starts are '
              'non-decreasing along a step) and R-UNCONSUME (putting the cursor back to a saved copy takes back the '
              'line starts and tokens recorded for the un-consumed text), R-EOF-AT-END (on every path of finalize_lexing '
-             'the cursor is never put back and EOF is emitted at the end of the text).')
+             'the cursor is never put back and EOF is emitted at the end of the text). R-ADVANCE-SHORT (see C03): the EOF token sits at the end of the text also after an unterminated datalines block.')
 def c02(cx):
     fx = cx.facts("dev-none-stable")
     rules_struct.r_restore(cx, fx)
     rules_struct.r_eof(cx, fx)
     rules_cfg.r_cfgdiff_macrosep(cx)
     rules_struct.r_comutate(cx, ["dev-none-stable", "dev-msep-stable"])
-    lea_glue.apply(cx, ["R-OFFSET-PROVENANCE", "R-EMIT-ORDER", "R-BOM-ORDER", "R-UNCONSUME", "R-EOF-AT-END"])
+    lea_glue.apply(cx, ["R-OFFSET-PROVENANCE", "R-EMIT-ORDER", "R-BOM-ORDER", "R-UNCONSUME", "R-EOF-AT-END", "R-ADVANCE-SHORT"])
 
 
 @prop("C12", 'R-FRAME-BALANCE (on every lex_token path pending-statement frames and the macro nesting level change only '
